@@ -373,7 +373,7 @@ def decode_real(path, samples, primary, only_snvs=False):
         return {"exc": type(e).__name__, "ph": []}
 
 
-def _concat_as_contigs(p1, p2, dst):
+def _concat_as_contigs(p1, p2, dst, shift=0):
     """records of p1 on their contig, records of p2 renamed to contig chr2; header of p1 plus the definitions only p2 has"""
     with open(p1) as fh:
         l1 = fh.read().splitlines()
@@ -392,10 +392,22 @@ def _concat_as_contigs(p1, p2, dst):
             if x and not x.startswith("#"):
                 f = x.split("\t")
                 f[0] = "chr2"
+                f[1] = str(int(f[1]) + shift)
+                if shift:      # PS / HP values name positions: keep them consistent with the shifted coordinates
+                    keys = f[8].split(":")
+                    for k in range(9, len(f)):
+                        vals = f[k].split(":")
+                        for kk, key in enumerate(keys):
+                            if kk < len(vals) and vals[kk] not in (".", ""):
+                                if key == "PS" and vals[kk].isdigit():
+                                    vals[kk] = str(int(vals[kk]) + shift)
+                                elif key == "HP":
+                                    vals[kk] = ",".join(f"{int(e.split('-')[0]) + shift}-{e.split('-')[1]}" if "-" in e else e for e in vals[kk].split(","))
+                        f[k] = ":".join(vals)
                 fo.write("\t".join(f) + "\n")
 
 
-def decode_two_contigs(path, samples, primary, only_snvs=False):
+def decode_two_contigs(path, samples, primary, only_snvs=False, shift=0):
     from whatshap.vcf import VcfReader
     nrec = primary["n"]
     try:
@@ -403,11 +415,12 @@ def decode_two_contigs(path, samples, primary, only_snvs=False):
         with VcfReader(path, phases=True, only_snvs=only_snvs) as r:
             for table in r:
                 ph = out[table.chromosome]
+                sh = shift if table.chromosome == "chr2" else 0
                 for s, name in enumerate(samples):
                     for v, p in zip(table.variants, table.phases_of(name)):
-                        if p is not None and v.position in primary:
-                            ph[s][primary[v.position]] = {"block": -1 if p.block_id is None else int(p.block_id),
-                                                          "al": [-1 if a is None else int(a) for a in p.phase]}
+                        if p is not None and v.position - sh in primary:
+                            ph[s][primary[v.position - sh]] = {"block": -1 if p.block_id is None else int(p.block_id) - sh,
+                                                               "al": [-1 if a is None else int(a) for a in p.phase]}
         return {"exc": "", "ph1": out["chr1"], "ph2": out["chr2"]}
     except Exception as e:
         return {"exc": type(e).__name__, "ph1": [], "ph2": []}
@@ -523,6 +536,33 @@ def _drive(sc, tmp):
             ea = evs[-1]
             d2 = phase(cur, other, op["T"], op["inp"], bool(op.get("snvs")))  # the twin run with the other tag on the same input
             eb = evs[-1]
+            if d1 is not None and op["inp"] != "bam" and ea["dec"]["exc"] == "" and len(samples) * 0 == 0:
+                # the same run on a TWO-CONTIG file: contig 2 is a copy of contig 1 shifted so that its first phased variant has the
+                # coordinate of contig 1's last one (nothing may carry over from one contig to the next)
+                phased_pos = sorted({w["recs"][i]["pos"] for row in ea["dec"]["ph"] for i, st in enumerate(row) if st})
+                if len(phased_pos) >= 2:
+                    shift = phased_pos[-1] - phased_pos[0]
+                    in2, g2, out2 = (os.path.join(tmp, f"{x}{d1}.vcf") for x in ("two_in", "two_g", "two_out"))
+                    _concat_as_contigs(paths[cur], paths[cur], in2, shift)
+                    gsrc = gpaths[op["inp"][4:]]
+                    _concat_as_contigs(gsrc, gsrc, g2, shift)
+                    exc2 = H.run_phase_file(in2, out2, op["tag"], [samples[t - 1] for t in op["T"]], [g2], reference=False,
+                                            only_snvs=bool(op.get("snvs")))
+                    ab = decode_two_contigs(out2, samples, primary, osw, shift) if not exc2 else {"exc": exc2, "ph1": [], "ph2": []}
+
+                    def canon(ph):
+                        """orientation of a phase set is arbitrary per run and contig: list every set with allele 0 first at its first site"""
+                        out_ = []
+                        for row in ph:
+                            first = {}
+                            for st in row:
+                                if st and st["block"] not in first:
+                                    first[st["block"]] = st["al"][0] > st["al"][1]
+                            out_.append([dict(st, al=st["al"][::-1]) if st and first[st["block"]] else st for st in row])
+                        return out_
+                    a_c = {"exc": "", "ph": canon(ea["dec"]["ph"])}
+                    evs.append({"ev": "Concat", "a": a_c, "b": a_c,
+                                "ab": dict(ab, ph1=canon(ab["ph1"]), ph2=canon(ab["ph2"])) if not ab["exc"] else ab})
             if d1 is not None and d2 is not None:
                 cat = os.path.join(tmp, f"cat{d1}.vcf")
                 _concat_as_contigs(paths[d1], paths[d2], cat)
